@@ -213,7 +213,7 @@ class RealScenario:
                 pass
 
 
-def inbound_case(seed, role="client", n=120):
+def inbound_case(seed, role="client", n=400):
     """Peer sends n marked application messages, hostile segmentation; the application drains get_message().
     -> dict(result='ok'|'violation'|'timeout', ...)"""
     rng = random.Random(seed)
@@ -235,7 +235,7 @@ def inbound_case(seed, role="client", n=120):
         stream = bytearray()
         sizes = []
         for k in range(1, n + 1):
-            size = rng.choice([0, 0, 10, 300, 5000, 5000, 20000])
+            size = rng.choice([0, 0, 0, 10, 10, 300, 300, 5000, 20000])
             sizes.append(size)
             if rng.random() < 0.08:
                 stream += R.encode(R.LMsg(1, rng.choice([0xc0, 0x40]), 316, 16777251, k, 0x30000000 + k, []))     # the bare header
